@@ -3,11 +3,15 @@ CONSTANTS
   NU = 2
   NS = 1
   MaxN = 3
+  CropN = 3
   Sub = 2
   Ext = 4
   ExtNs = {1, 2}
+  ChainNU = 2
+  ChainNs = {2}
   Algo = "arange_int"
   ExtFilter = TRUE
+  RangeFrom = "index"
 INVARIANT ImplCrop
 INVARIANT LawCropContiguous
 INVARIANT LawCropClosedness
@@ -19,5 +23,9 @@ INVARIANT LawExtendIsInterval
 INVARIANT ImplExactlyWidth
 INVARIANT ImplPlacement
 INVARIANT LawOffs
+INVARIANT NeverOffLattice
+INVARIANT ImplChain
+INVARIANT LawChainExact
+INVARIANT LawChainKeepsOriginals
 PROPERTY Terminates
 CHECK_DEADLOCK FALSE
